@@ -400,7 +400,10 @@ class Qcow2VmdkStreamSuite(Suite):
             return Q.QCow2(fh, data_file=data, backing_file=barg)
         from dissect.hypervisor.disk.vmdk import VMDK
         fh, _ = c02.build_image(img)
-        return VMDK(fh)
+        v = VMDK(fh)
+        if img.get("with_parent"):
+            v.disks[0].parent = c02.parent_of(img)          # a delta link: absent grains come from the parent
+        return v
 
     def impl(self, case):
         import dissect.util.stream as st
@@ -425,7 +428,7 @@ class Qcow2VmdkStreamSuite(Suite):
                     f"| Err => Err | Fuel => Fuel end)) {ops}, spec_run {size} 0 {ops})")
         fh, _ = c02.build_image(img)
         return (f"let f := {c02.file_term(img, fh)} in match open_sparse f with "
-                f"| Ok sp => let v := mk_vmdk [XSparse f sp false] in "
+                f"| Ok sp => let v := mk_vmdk [XSparse f sp {core.cbool(bool(img.get('with_parent')))}] in "
                 f"(run_outs {size} {align} (blen_plan (fun off len => match vmdk_read v off len with Ok p => Ok (plan_of_x p) "
                 f"| Err => Err | Fuel => Fuel end)) {ops}, spec_run {size} 0 {ops}) "
                 f"| _ => (Err, []) end")
